@@ -613,17 +613,17 @@ theorem putForm_update (S : Spec) (id : Nat) (old : Frame) (old' : SFrame) (u : 
     | none => simp [reuseContent, hS, specInherit, hp]
     | some p => simp [reuseContent, specInherit, inheritArgs, hp]
   have hch : (inheritArgs old u emb).chunks = (specInherit old' u).chunks := by
-    simp [inheritArgs, specInherit]
+    cases hp : u.payload <;> simp [inheritArgs, specInherit, hp]
   rw [hc, hch]
   have hd := specDoc_congr (inheritArgs old u emb) (specInherit old' u) S.length (some id) (specInherit old' u).content
-    (by simp [inheritArgs, specInherit, e_ts]) (by simp [inheritArgs, specInherit, e_uri])
-    (by simp [inheritArgs, specInherit, e_kind]) (by simp [inheritArgs, specInherit, e_track])
+    (by simp [inheritArgs, specInherit, e_ts]) (by cases hx : u.uri <;> simp [inheritArgs, specInherit, hx, e_uri])
+    (by cases hx : u.kind <;> simp [inheritArgs, specInherit, hx, e_kind]) (by cases hx : u.track <;> simp [inheritArgs, specInherit, hx, e_track])
     (by simp [inheritArgs, specInherit, e_tags]) (by simp [inheritArgs, specInherit, e_labels])
     (by simp [inheritArgs, specInherit]) hch
   have hk := specChunks_congr (inheritArgs old u emb) (specInherit old' u) S.length
     (specInherit old' u).chunks.length (specInherit old' u).chunks 0
-    (by simp [inheritArgs, specInherit, e_ts]) (by simp [inheritArgs, specInherit, e_uri])
-    (by simp [inheritArgs, specInherit, e_kind]) (by simp [inheritArgs, specInherit, e_track])
+    (by simp [inheritArgs, specInherit, e_ts]) (by cases hx : u.uri <;> simp [inheritArgs, specInherit, hx, e_uri])
+    (by cases hx : u.kind <;> simp [inheritArgs, specInherit, hx, e_kind]) (by cases hx : u.track <;> simp [inheritArgs, specInherit, hx, e_track])
     (by simp [inheritArgs, specInherit, e_tags]) (by simp [inheritArgs, specInherit, e_labels])
   rw [hd, hk]
 
@@ -685,5 +685,288 @@ theorem delete_sim (m : Mem) (id : Nat) (t : Trace) (hi : Inv m) :
         show sApply (m.frames.map view) (m.pending ++ [(m.seq + 1, Entry.tombstone id)]) = _
         rw [sApply_append]; rfl
       exact ⟨afterAppend_inv _ t hi1, fun _ => (afterAppend_abs _ t hi1).trans ha1, fun h => by simp [Out.isAck] at h⟩
+
+/-! ## F. drop / open / crash / skip-index commit / finalize / vacuum / doctor / batch / ticket -/
+
+/-- a state whose pending records are only `Lex` records and whose insert counter is 0 -/
+structure Quiet (m : Mem) : Prop where
+  lex : OnlyLex m.pending
+  pi : m.pendingInserts = 0
+
+theorem Quiet.inv {m : Mem} (h : Quiet m) : Inv m :=
+  ⟨fun r hr => by rw [h.lex r hr]; trivial, by rw [h.pi, countInserts_onlyLex _ h.lex]⟩
+
+theorem Quiet.abs_eq {m : Mem} (h : Quiet m) : Mv.Core.abs m = m.frames.map view := by
+  unfold Mv.Core.abs; exact sApply_onlyLex _ _ h.lex
+
+theorem Quiet.of_skel {m' m : Mem} (h : SkelLex m' m) (hq : Quiet m) : Quiet m' := by
+  obtain ⟨l, ol, pl⟩ := h.pending
+  refine ⟨?_, by rw [h.pi, hq.pi]⟩
+  rw [pl]
+  intro r hr
+  rcases List.mem_append.mp hr with hr | hr
+  · exact hq.lex r hr
+  · exact ol r hr
+
+theorem Clean.quiet {m' m : Mem} (h : Clean m' m) : Quiet m' :=
+  ⟨(by rw [h.pending]; intro r hr; cases hr), h.pi⟩
+
+theorem dropHandle_abs (m : Mem) (ft : Nat) (hi : Inv m) : abs (m.dropHandle ft) = abs m := by
+  unfold Mem.dropHandle; split
+  · exact commit_abs m ft hi
+  · rfl
+
+theorem dropHandle_inv (m : Mem) (ft : Nat) (hi : Inv m) : Inv (m.dropHandle ft) := by
+  unfold Mem.dropHandle; split
+  · exact commit_inv m ft hi
+  · exact hi
+
+/-- `recover_wal` on a freshly loaded handle: every pending record is applied -/
+theorem recoverWal_spec (m1 : Mem) (ft : Nat) (hok : AllOk m1.frames.length m1.pending) (hpi : m1.pendingInserts = 0) :
+    Quiet (m1.recoverWal ft) ∧ (m1.recoverWal ft).frames.map view = sApply (m1.frames.map view) m1.pending := by
+  unfold Mem.recoverWal
+  split
+  · rename_i he
+    have hp : m1.pending = [] := by simpa using he
+    have hs := flushTantivy_skel m1 ft
+    have hq : Quiet m1 := ⟨(by rw [hp]; intro r hr; cases hr), hpi⟩
+    exact ⟨Quiet.of_skel hs hq, by rw [hs.frames, hp]; rfl⟩
+  · obtain ⟨ma, δ, h1, hv, _, _⟩ := applyRecords_view m1 m1.pending true hok
+    simp only [h1]
+    have hb : ((if δ.nonEmpty = true then ma.rebuildIndexes δ.embs δ.inserted ft else ma.flushTantivy ft)).frames.map view
+        = ma.frames.map view := by
+      split
+      · exact (rebuildIndexes_skel ma _ _ ft).frames
+      · exact (flushTantivy_skel ma ft).frames
+    refine ⟨⟨?_, rfl⟩, ?_⟩
+    · intro r hr; cases hr
+    · show ((if δ.nonEmpty = true then ma.rebuildIndexes δ.embs δ.inserted ft else ma.flushTantivy ft)).frames.map view = _
+      rw [hb, hv]
+
+theorem openFrom_spec (m : Mem) (ft : Nat) (hok : AllOk m.frames.length m.pending) :
+    Quiet (m.openFrom ft) ∧ (m.openFrom ft).frames.map view = abs m := by
+  obtain ⟨hq, hf⟩ := recoverWal_spec m.openLoad ft hok rfl
+  have hs : SkelLex (m.openLoad.recoverWal ft).loadTracks (m.openLoad.recoverWal ft) := SkelLex.of_eq rfl rfl rfl
+  exact ⟨Quiet.of_skel hs hq, by rw [Mem.openFrom, hs.frames, hf]; rfl⟩
+
+theorem openFrom_abs (m : Mem) (ft : Nat) (hi : Inv m) : abs (m.openFrom ft) = abs m := by
+  obtain ⟨hq, hf⟩ := openFrom_spec m ft hi.ok
+  rw [hq.abs_eq, hf]
+
+theorem reopen_sim (m : Mem) (a b : Nat) (hi : Inv m) :
+    Quiet (m.reopen a b).1 ∧ abs (m.reopen a b).1 = abs m ∧ (m.reopen a b).1.frames.map view = abs m := by
+  have hd := dropHandle_inv m a hi
+  obtain ⟨hq, hf⟩ := openFrom_spec (m.dropHandle a) b hd.ok
+  refine ⟨hq, ?_, ?_⟩
+  · show abs ((m.dropHandle a).openFrom b) = _
+    rw [openFrom_abs _ b hd, dropHandle_abs m a hi]
+  · show ((m.dropHandle a).openFrom b).frames.map view = _
+    rw [hf, dropHandle_abs m a hi]
+
+theorem crash_sim (m : Mem) (ft : Nat) (hi : Inv m) :
+    Quiet (m.crash ft).1 ∧ abs (m.crash ft).1 = abs m ∧ (m.crash ft).1.frames.map view = abs m := by
+  obtain ⟨hq, hf⟩ := openFrom_spec ({ m with queue := m.pQueue } : Mem) ft hi.ok
+  have ha : abs ({ m with queue := m.pQueue } : Mem) = abs m := rfl
+  refine ⟨hq, ?_, ?_⟩
+  · show abs (({ m with queue := m.pQueue } : Mem).openFrom ft) = _
+    rw [hq.abs_eq, hf, ha]
+  · show (({ m with queue := m.pQueue } : Mem).openFrom ft).frames.map view = _
+    rw [hf, ha]
+
+theorem commitSkip_sim (m : Mem) (hi : Inv m) :
+    Inv m.commitSkipIndexes.1 ∧ abs m.commitSkipIndexes.1 = abs m := by
+  unfold Mem.commitSkipIndexes
+  split
+  · exact ⟨hi, rfl⟩
+  · obtain ⟨m1, δ, h1, hv, _, _⟩ := applyRecords_view m m.pending false hi.ok
+    simp only [h1]
+    constructor
+    · exact Clean.inv (m := m) ⟨hv, rfl, rfl⟩
+    · exact Clean.abs ⟨hv, rfl, rfl⟩
+
+theorem finalize_sim (m : Mem) (ft : Nat) (hi : Inv m) :
+    Inv (m.finalizeIndexes ft).1 ∧ abs (m.finalizeIndexes ft).1 = abs m :=
+  ⟨(rebuildIndexes_skel m [] [] ft).inv hi, (rebuildIndexes_skel m [] [] ft).abs⟩
+
+theorem view_compact (fs : List Frame) (c : Nat) : (compact fs c).1.map view = fs.map view := by
+  induction fs generalizing c with
+  | nil => rfl
+  | cons f fs ih =>
+    unfold compact
+    split
+    · simp only [List.map_cons, ih]; rfl
+    · simp only [List.map_cons, ih]; rfl
+
+theorem compactFrames_skel (m : Mem) : SkelLex m.compactFrames m :=
+  ⟨view_compact m.frames 0, rfl, [], by simp [OnlyLex], by simp [Mem.compactFrames]⟩
+
+theorem vacuum_sim (m : Mem) (a b : Nat) (hi : Inv m) :
+    Inv (m.vacuum a b).1 ∧ abs (m.vacuum a b).1 = abs m := by
+  unfold Mem.vacuum
+  have hci := commit_inv m a hi
+  have hca := commit_abs m a hi
+  split
+  · have hs := SkelLex.trans (rebuildIndexes_skel (m.commit a).1.compactFrames [] [] b) (compactFrames_skel (m.commit a).1)
+    exact ⟨hs.inv hci, hs.abs.trans hca⟩
+  · exact ⟨hci, hca⟩
+
+/-- after `vacuum` only `Lex` records can be pending -/
+theorem vacuum_quiet (m : Mem) (a b : Nat) (hq : Quiet m) : Quiet (m.vacuum a b).1 := by
+  unfold Mem.vacuum
+  have hcq : Quiet (m.commit a).1 := by
+    unfold Mem.commit
+    split
+    · exact hq
+    · obtain ⟨m', h, hc⟩ := commitFromRecords_clean m a hq.inv
+      simp only [h]; exact hc.quiet
+  split
+  · exact Quiet.of_skel (SkelLex.trans (rebuildIndexes_skel (m.commit a).1.compactFrames [] [] b) (compactFrames_skel (m.commit a).1)) hcq
+  · exact hcq
+
+theorem resetWal_quiet (m : Mem) (hq : Quiet m) : Quiet m.resetWal ∧ abs m.resetWal = abs m := by
+  have hq' : Quiet m.resetWal := ⟨(by intro r hr; cases hr), hq.pi⟩
+  exact ⟨hq', by rw [hq'.abs_eq, hq.abs_eq]; rfl⟩
+
+theorem doctorRebuild_quiet (m : Mem) (rv : Bool) (ft : Nat) (hq : Quiet m) :
+    Quiet (m.doctorRebuild rv ft) ∧ abs (m.doctorRebuild rv ft) = abs m := by
+  unfold Mem.doctorRebuild
+  have hs : SkelLex ((if rv = true then { m with vecEnabled := true, vecManifest := false, vec := none, pVec := none }
+      else if (m.vecEnabled && m.vec.isNone && m.vecManifest) = true then { m with vec := m.pVec } else m).rebuildIndexes [] [] ft) m := by
+    refine SkelLex.trans (rebuildIndexes_skel _ [] [] ft) ?_
+    split
+    · exact SkelLex.of_eq rfl rfl rfl
+    · split
+      · exact SkelLex.of_eq rfl rfl rfl
+      · exact SkelLex.refl m
+  obtain ⟨h1, h2⟩ := resetWal_quiet _ (Quiet.of_skel hs hq)
+  exact ⟨h1, h2.trans hs.abs⟩
+
+theorem doctor_sim (m : Mem) (vac rt rl rv : Bool) (a b c d : Nat) (hi : Inv m) :
+    Quiet (m.doctor vac rt rl rv a b c d).1 ∧ abs (m.doctor vac rt rl rv a b c d).1 = abs m := by
+  have hd := dropHandle_inv m a hi
+  obtain ⟨hq0, hf0⟩ := openFrom_spec (m.dropHandle a) b hd.ok
+  have ha0 : abs ((m.dropHandle a).openFrom b) = abs m := by
+    rw [openFrom_abs _ b hd, dropHandle_abs m a hi]
+  -- stage 1
+  have h1 : Quiet (m.doctorStage1 vac a b c) ∧ abs (m.doctorStage1 vac a b c) = abs m := by
+    unfold Mem.doctorStage1
+    split
+    · exact ⟨vacuum_quiet _ b c hq0, (vacuum_sim _ b c hq0.inv).2.trans ha0⟩
+    · exact ⟨hq0, ha0⟩
+  -- stage 2
+  have h2 : Quiet ((m.doctorStage1 vac a b c).doctorStage2 (rt || rl || rv) rv c) ∧
+      abs ((m.doctorStage1 vac a b c).doctorStage2 (rt || rl || rv) rv c) = abs m := by
+    unfold Mem.doctorStage2
+    split
+    · obtain ⟨q, e⟩ := doctorRebuild_quiet _ rv c h1.1
+      exact ⟨q, e.trans h1.2⟩
+    · exact h1
+  have hd2 := dropHandle_inv _ c h2.1.inv
+  obtain ⟨hq3, hf3⟩ := openFrom_spec _ d hd2.ok
+  refine ⟨hq3, ?_⟩
+  show abs ((((m.doctorStage1 vac a b c).doctorStage2 (rt || rl || rv) rv c).dropHandle c).openFrom d) = _
+  rw [openFrom_abs _ d hd2, dropHandle_abs _ c h2.1.inv, h2.2]
+
+/-! ## G. The simulation theorem -/
+
+theorem ite_same' {α : Type} (b : Bool) (a : α) : (if b = true then a else a) = a := by cases b <;> rfl
+
+theorem create_inv : Inv Mem.create := ⟨(fun r hr => by cases hr), rfl⟩
+
+theorem applyTicket_skel (m : Mem) (s : Int) (c : Nat) (b f : Bool) : SkelLex (m.applyTicket s c b f).1 m := by
+  unfold Mem.applyTicket; split
+  · exact SkelLex.refl m
+  · exact SkelLex.of_eq rfl rfl rfl
+
+theorem beginBatch_skel (m : Mem) (d : Bool) (ws : Nat) : SkelLex (m.beginBatch d ws).1 m :=
+  SkelLex.trans (SkelLex.of_eq (m := m.setWalSize ws) rfl rfl rfl) (setWalSize_skel m ws)
+
+/-- ONE STEP: the invariant is preserved, and the abstract state moves exactly as the reference says
+    when the operation is acknowledged and not at all when it is rejected — for every operation and
+    every choice of trace inputs (automatic checkpoint or not, footer positions, WAL sizes, …). -/
+theorem core_step (m : Mem) (op : Op) (hi : Inv m) :
+    Inv (step m op).1 ∧
+    abs (step m op).1 = (if (step m op).2.isAck then specStep (abs m) op else abs m) := by
+  cases op with
+  | create => exact ⟨create_inv, rfl⟩
+  | put a t =>
+    obtain ⟨h1, h2, h3⟩ := put_sim m a t hi
+    refine ⟨h1, ?_⟩
+    show abs (m.put a t).1 = if (m.put a t).2.isAck then specPut (abs m) a else abs m
+    cases h : (m.put a t).2.isAck
+    · simpa using h3 h
+    · simpa using h2 h
+  | update id u t =>
+    obtain ⟨h1, h2, h3⟩ := update_sim m id u t hi
+    refine ⟨h1, ?_⟩
+    show abs (m.update id u t).1 = if (m.update id u t).2.isAck then specUpdate (abs m) id u else abs m
+    cases h : (m.update id u t).2.isAck
+    · simpa using h3 h
+    · simpa using h2 h
+  | delete id t =>
+    obtain ⟨h1, h2, h3⟩ := delete_sim m id t hi
+    refine ⟨h1, ?_⟩
+    show abs (m.delete id t).1 = if (m.delete id t).2.isAck then specDelete (abs m) id else abs m
+    cases h : (m.delete id t).2.isAck
+    · simpa using h3 h
+    · simpa using h2 h
+  | commit ft => exact ⟨commit_inv m ft hi, by simp only [step, specStep, commit_abs m ft hi]; exact (ite_same' _ _).symm⟩
+  | reopen a b =>
+    obtain ⟨hq, ha, _⟩ := reopen_sim m a b hi
+    exact ⟨hq.inv, by simp only [step, specStep, ha]; exact (ite_same' _ _).symm⟩
+  | crash ft =>
+    obtain ⟨hq, ha, _⟩ := crash_sim m ft hi
+    exact ⟨hq.inv, by simp only [step, specStep, ha]; exact (ite_same' _ _).symm⟩
+  | beginBatch d ws =>
+    exact ⟨(beginBatch_skel m d ws).inv hi, by simp only [step, specStep, (beginBatch_skel m d ws).abs]; exact (ite_same' _ _).symm⟩
+  | endBatch =>
+    have hs : SkelLex m.endBatch.1 m := SkelLex.of_eq rfl rfl rfl
+    exact ⟨hs.inv hi, by simp only [step, specStep, hs.abs]; exact (ite_same' _ _).symm⟩
+  | commitSkipIndexes =>
+    obtain ⟨h1, h2⟩ := commitSkip_sim m hi
+    exact ⟨h1, by simp only [step, specStep, h2]; exact (ite_same' _ _).symm⟩
+  | finalizeIndexes ft =>
+    obtain ⟨h1, h2⟩ := finalize_sim m ft hi
+    exact ⟨h1, by simp only [step, specStep, h2]; exact (ite_same' _ _).symm⟩
+  | vacuum a b =>
+    obtain ⟨h1, h2⟩ := vacuum_sim m a b hi
+    exact ⟨h1, by simp only [step, specStep, h2]; exact (ite_same' _ _).symm⟩
+  | doctor v rt rl rv a b c d =>
+    obtain ⟨hq, ha⟩ := doctor_sim m v rt rl rv a b c d hi
+    exact ⟨hq.inv, by simp only [step, specStep, ha]; exact (ite_same' _ _).symm⟩
+  | ticket s c b f =>
+    exact ⟨(applyTicket_skel m s c b f).inv hi, by simp only [step, specStep, (applyTicket_skel m s c b f).abs]; exact (ite_same' _ _).symm⟩
+
+theorem inv_step (m : Mem) (op : Op) (hi : Inv m) : Inv (step m op).1 := (core_step m op hi).1
+
+theorem core_sim (m : Mem) (op : Op) (hi : Inv m) :
+    abs (step m op).1 = (if (step m op).2.isAck then specStep (abs m) op else abs m) := (core_step m op hi).2
+
+/-- WHOLE HISTORIES: after any operation sequence the abstract state is the reference run of the
+    acknowledged operations -/
+theorem run_refines (m : Mem) (ops : List Op) (hi : Inv m) :
+    Inv (run m ops) ∧ abs (run m ops) = specRun (abs m) (trace m ops) := by
+  induction ops generalizing m with
+  | nil => exact ⟨hi, rfl⟩
+  | cons op ops ih =>
+    obtain ⟨h1, h2⟩ := core_step m op hi
+    obtain ⟨h3, h4⟩ := ih (step m op).1 h1
+    refine ⟨h3, ?_⟩
+    show abs (run (step m op).1 ops) = specRun (if (step m op).2.isAck then specStep (abs m) op else abs m) (trace (step m op).1 ops)
+    rw [h4, h2]
+
+theorem run_create_refines (ops : List Op) :
+    Inv (run Mem.create ops) ∧ abs (run Mem.create ops) = specRun [] (trace Mem.create ops) :=
+  run_refines Mem.create ops create_inv
+
+/-- `next_frame_id()` is the length of the abstract table -/
+theorem abs_length (m : Mem) (hi : Inv m) : (abs m).length = m.nextFrameId := by
+  unfold Mv.Core.abs Mem.nextFrameId
+  rw [sApply_length, List.length_map, hi.pi]
+
+/-- a committed frame carries the identity fields of the abstract frame with the same id -/
+theorem committed_prefix (m : Mem) (i : Nat) (hlt : i < m.frames.length) :
+    ((m.frames.map view)[i]?).map SFrame.ident = ((abs m)[i]?).map SFrame.ident :=
+  (sApply_ident (m.frames.map view) m.pending i (by simpa using hlt)).symm
 
 end Mv.Core
